@@ -73,22 +73,18 @@ SPEC = {
                     'initial empty outcome)'],
     'level_text': 'Proof: 39 closed Coq theorems. 24 property theorems. Round level: Observation in a building round (RMN enabled, no retry) succeeds only with a '
                   "well-formed bundle whose signatures the crypto oracle accepted for exactly the report built from the previous outcome's RMN config and the bundle's "
-                  'lane updates (C05_observe_requires_bundle); a bundle in any other round is refused; the only unverified observations are RMN off / no bundle outside '
-                  'building / announced retry (C05_unverified_observation_cases); the reported roots are exactly the agreed roots equal to a signed lane update on chain, '
-                  'interval, address and root (C05_roots_signed, iff), sorted, one per chain; signatures never without roots over any run and in the emitted report '
-                  '(C05_no_sigs_without_roots, C05_report_no_sigs_without_roots); a report with roots is accepted only with F_rmn+1 signatures for every F '
-                  "(C05_accept_gate); an announced retry is inert; the honest leader's query comes from the controller asked for exactly the previous outcome's ranges "
-                  '(C05_honest_query). History level, induction over any round list of one long-lived Processor: in EVERY round the crypto oracle is consulted only in a '
-                  "building round and with exactly the signers, versions, addresses and digest of THAT round's previous outcome "
-                  '(C05_life_verified_against_agreed_config); an outcome with roots is written only under a bundle accepted against that set '
-                  '(C05_life_roots_need_verified_bundle); two instances with the same previous outcome behave alike whatever their past (C05_life_round_memoryless, '
-                  '_call_memoryless). Unrepaired code refuted: F10 (nil bundle part panicked), F11, F28 (+ _except_known form). Judge soundness (15 C05_judge_*): for '
-                  "each of the 7 sinks the executable property accepts the model's output and implies the Prop-level clause. Correspondence, every run: four real "
-                  'Processors from NewProcessor kept for 8..16 rounds while RMNRemote signers / F / version / digest, RMNHome nodes and addresses change, with a '
-                  'recording crypto fake that is a signature scheme and honest or Byzantine leaders (C05_life); one long-lived commit.Plugin over 4..12 Reports + '
-                  'ShouldAccept cycles (C05_replife); the chain Query -> Observation -> ValidateObservation -> Outcome; Observation, Outcome, Reports and '
-                  'ShouldAcceptAttestedReport at function level. Translation tie: Outcome.NextState (C03_gen.v, 3 theorems). Outside: a NewPlugin-built plugin with the '
-                  'real rmn.Controller is not driven (the scripted controller is injected at the Processor); agreed-ness of reported roots is C03 / C04.',
+                  'lane updates; a bundle in any other round is refused; the reported roots are exactly the agreed roots equal to a signed lane update (C05_roots_signed, '
+                  'iff), sorted, one per chain; signatures never without roots over any run and in the emitted report (C05_no_sigs_without_roots); a report with roots is '
+                  'accepted only with F_rmn+1 signatures for every F (C05_accept_gate); an announced retry is inert; C05_honest_query. History level, induction over any '
+                  'round list of one long-lived Processor: in EVERY round the crypto oracle is consulted only in a building round and with exactly the signers, versions, '
+                  "addresses and digest of THAT round's previous outcome (C05_life_verified_against_agreed_config); an outcome with roots is written only under a bundle "
+                  'accepted against that set (C05_life_roots_need_verified_bundle); instances with the same previous outcome behave alike (C05_life_round_memoryless, '
+                  '_call_memoryless). Unrepaired code refuted: F10 (nil bundle part panicked), F11, F28. Judge soundness (15 C05_judge_*): for each of the 7 sinks the '
+                  "executable property accepts the model's output and implies the Prop-level clause. Correspondence, every run: four real Processors from NewProcessor "
+                  'kept for 8..16 rounds while the RMNRemote / RMNHome configuration and addresses change, with a recording crypto fake that is a signature scheme and '
+                  'honest or Byzantine leaders (C05_life); one long-lived commit.Plugin over 4..12 Reports + ShouldAccept cycles (C05_replife); the chain Query -> '
+                  'Observation -> ValidateObservation -> Outcome; the four callbacks at function level. Translation tie: Outcome.NextState (C03_gen.v, 3 theorems). '
+                  'Outside: a NewPlugin-built plugin with the real rmn.Controller is not driven (the scripted controller is injected at the Processor).',
     'level_note': 'Trusted: Coq kernel, hand-written model and theorem statements, differential harness, leaf translator. Specific: RMNCrypto.VerifyReportSignatures is '
                   'an oracle - the theorems hold for every predicate over (signatures, report, signer addresses); the harness records the call and compares its '
                   'ARGUMENTS, in the life part the fake is a signature scheme (sha256 of the canonical report taken as collision free) and the judge evaluates the same '
